@@ -67,9 +67,11 @@ package netlist
 //@   modifies b.b, obj(b.b)
 //@   ensures builderOK(b)
 //@   ensures [C07:empty-or-invalid-range-refused] ok == (start.z != netip.z0 && end.z != netip.z0 && nConv == 2 && le(gS, gE))
-//@   ensures [C07:accepted-range-appended-as-given] ok ==> len(b.b) == old(len(b.b)) + 1 && b.b[len(b.b)-1].start == gS && b.b[len(b.b)-1].end == gE && b.b[len(b.b)-1].v == v
-//@   ensures [C07:earlier-ranges-kept] forall(k, 0, old(len(b.b)), b.b[k] == old(b.b[k]))
+//@   ensures [C07:accepted-range-appended-as-given] ok ==> len(b.b) == old(len(b.b)) + 1 && b.b[len(b.b)-1].start == gS && b.b[len(b.b)-1].end == gE
+//@   ensures [C07:accepted-range-carries-its-value] ok ==> len(b.b) == old(len(b.b)) + 1 && b.b[len(b.b)-1].v == v
+//@   ensures [C07:earlier-ranges-kept] forall(k, 0, old(len(b.b)), b.b[k].v == old(b.b[k].v) && b.b[k].start == old(b.b[k].start) && b.b[k].end == old(b.b[k].end))
 //@   ensures !ok ==> len(b.b) == old(len(b.b))
+//@   ensures [C20:own-array] b.b == old(b.b) || sameObj(b.b, old(b.b)) || fresh(b.b)
 //@   callsite addr2Ipv6?: [C07:ends-of-this-range] (nConv == 0 ==> arg0 == start) && (nConv == 1 ==> arg0 == end)
 
 // the order Build sorts by: start address
@@ -86,14 +88,18 @@ package netlist
 //@   props C07 C01
 //@   requires b != nil && builderOK(b)
 //@   assumecall Slice: forall(j, 0, len(rs), forall(k, j+1, len(rs), !lt(rs[k].start, rs[j].start))) && forall(k, 0, len(rs), le(rs[k].start, rs[k].end))
-//@   modifies *
+// (sorting permutes: every value afterwards is a value that was there before)
+//@   assumecall Slice: forall(k, 0, len(rs), exists(j, 0, len(rs), rs[k].v == old(b.b[j].v)))
+//@   modifies obj(b.b)
 //@   ensures [C07:built-list-is-sorted-and-disjoint] err == nil ==> l != nil && listOK(l)
 //@   ensures err != nil ==> l == nil
 //@   ensures [C07:no-range-lost] err == nil ==> len(l.e) == old(len(b.b))
+//@   ensures [C07:values-kept] err == nil ==> forall(k, 0, len(l.e), exists(j, 0, old(len(b.b)), l.e[k].v == old(b.b[j].v)))
 //@   loop 1:
 //@     invariant 0 <= i && len(rs) == old(len(b.b))
 //@     invariant forall(j, 0, len(rs), forall(k, j+1, len(rs), !lt(rs[k].start, rs[j].start))) && forall(k, 0, len(rs), le(rs[k].start, rs[k].end))
 //@     invariant forall(j, 0, i, lt(rs[j].end, rs[j+1].start))
+//@     invariant forall(k, 0, len(rs), exists(j, 0, len(rs), rs[k].v == old(b.b[j].v)))
 //@     decreases len(rs) - i
 
 // the 128-bit form of an address (IPv4 addresses in their IPv4-mapped form); netip.As16 is not modelled
